@@ -62,8 +62,12 @@ def havoc_value(it, v, hint='h', record=None):
     ctx = it.ctx
     if isinstance(v, VList):
         it.mutating(v)
-        v.items = None
-        v.seq = ctx.fresh(pv.PVSeq, hint)
+        if v.symbolic and v.elem == 'str':
+            v.seq = ctx.fresh(z3.SeqSort(z3.StringSort()), hint)
+        else:
+            v.items = None
+            v.seq = ctx.fresh(pv.PVSeq, hint)
+            v.elem = 'any'
         return v
     if isinstance(v, VDict):
         it.mutating(v)
@@ -106,6 +110,8 @@ def apply_contract(it, c, fn, args, kwargs, line):
     env = Env(module=fn.module)
     it.bind_params(fn, env, list(args), dict(kwargs), line)
     # let-definitions of the callee (ghost abbreviations over its parameters)
+    for name, ex in c.defs.items():
+        env.set(name, spec_eval(it, ex, env))
     for name, ex in c.let.items():
         env.set(name, spec_eval(it, ex, env))
     # 1. precondition
